@@ -355,6 +355,9 @@ impl Service {
             if i.healthy {
                 self.healthy_instance_size -= 1;
             } else {
+                // already unhealthy (e.g. registered that way): it still has to be queued for removal
+                self.unhealthy_timeout_set
+                    .add(i.last_modified_millis as u64, instance_id.clone());
                 self.instances.insert(instance_id.clone(), i);
                 return;
             }
